@@ -107,6 +107,7 @@ class World:
         self._tmpfiles = 0
         self.damaged: set[str] = set()     # keys whose loose copy the harness damaged and that were not re-added yet
         self.dups: set[str] = set()        # keys with stray files in duplicates/ planted by the harness
+        self.uncertain: set[str] = set()   # keys targeted by a deletion that raised half-way (may or may not exist)
 
     # -- handles -----------------------------------------------------------------------------------------------
     @property
@@ -166,6 +167,10 @@ class World:
         if len(op) > 1 and isinstance(op[-1], (tuple, list)) and len(op[-1]) > 0 and op[-1][0] == 'kw':
             kw = {k: v for k, v in op[-1][1:]}
             op = tuple(op[:-1])
+            if kw.get('callback') == 'REC':
+                # a progress callback (the library calls it both positionally and by keyword)
+                calls = []
+                kw['callback'] = lambda action=None, value=None: calls.append(action)
         try:
             if kind == 'add':
                 r = self.h.add_object(m.universe[op[1]])
@@ -236,7 +241,7 @@ class World:
                     self.damaged -= m.packed
                 self.dups = {n.partition('.')[0] for n in REAL['os.listdir'](os.path.join(self.root, 'duplicates'))}
             elif kind == 'repack':
-                self.h.repack(compress_mode=_MODES[op[1]])
+                self.h.repack(compress_mode=_MODES[op[1]], **kw)
             elif kind == 'repack_pack':
                 self.h.repack_pack(str(op[1]), compress_mode=_MODES[op[2]])
             elif kind == 'delete':
@@ -335,6 +340,9 @@ class World:
         except Exception as exc:  # pylint: disable=broad-except
             res.exc = exc
             res.fail('unexpected-exception', f'{kind} raised {type(exc).__name__}: {exc}')
+            inner = op[2] if kind == 'on' else op
+            if inner[0] == 'delete':
+                self.uncertain |= {m.key(i) for i in inner[1]}
         return res
 
 
@@ -495,4 +503,10 @@ def variant_alphabet():
     ops.append(('import', (0, 2), False, 13, 'same'))
     ops.append(('reinit',))
     ops.append(('reinit_clear',))
+    cb = ('kw', ('callback', 'REC'))
+    ops.append(('pack', 'AUTO', True, True, cb))
+    ops.append(('topack', (1, 1, 3), True, True, True, cb))
+    ops.append(('sotopack', 3, False, False, True, ('kw', ('callback', 'REC'), ('callback_size_hint', 27))))
+    ops.append(('repack', 'YES', cb))
+    ops.append(('import', (0, 1, 2, 3), True, 13, 'same', cb))
     return ops
